@@ -696,15 +696,20 @@ int yr_arena_save_stream(YR_ARENA* arena, YR_STREAM* stream)
     reloc = reloc->next;
   }
 
+  // From this point on the arena holds references instead of pointers, so a
+  // write error can't simply return: the loop below that restores the pointers
+  // must always run, otherwise the arena is left unusable.
+  int result = ERROR_SUCCESS;
+
   // Now that all relocatable pointers are converted to references, write the
   // buffers.
-  for (uint32_t i = 0; i < arena->num_buffers; ++i)
+  for (uint32_t i = 0; i < arena->num_buffers && result == ERROR_SUCCESS; ++i)
   {
     YR_ARENA_BUFFER* b = &arena->buffers[i];
 
     if (b->used > 0)
       if (yr_stream_write(b->data, b->used, 1, stream) != 1)
-        return ERROR_WRITING_FILE;
+        result = ERROR_WRITING_FILE;
   }
 
   // Write the relocation list and restore the pointers back.
@@ -719,8 +724,9 @@ int yr_arena_save_stream(YR_ARENA* arena, YR_STREAM* stream)
 
     // Write the relocation entry, which consists in a reference to the place
     // where the pointer that needs to be relocated is stored.
-    if (yr_stream_write(&ref, sizeof(ref), 1, stream) != 1)
-      return ERROR_WRITING_FILE;
+    if (result == ERROR_SUCCESS &&
+        yr_stream_write(&ref, sizeof(ref), 1, stream) != 1)
+      result = ERROR_WRITING_FILE;
 
     // Move the reference that is going to be replaced by the corresponding
     // pointer to the ref variable. Notice that ref is being reused for a
@@ -742,5 +748,5 @@ int yr_arena_save_stream(YR_ARENA* arena, YR_STREAM* stream)
     reloc = reloc->next;
   }
 
-  return ERROR_SUCCESS;
+  return result;
 }
